@@ -145,6 +145,9 @@ func visibleOp(fr *frame, what string) {
 		return
 	}
 	cur := m.curG
+	if s.preempt >= m.cfg.maxPreemptions(m.path) {
+		return // pre-emption bound reached: the running goroutine continues until it blocks or exits
+	}
 	for {
 		others := s.enabled(cur)
 		timers := s.armedTimers()
@@ -166,6 +169,7 @@ func visibleOp(fr *frame, what string) {
 		if g == cur {
 			return
 		}
+		s.preempt++
 		s.switchTo(cur, g)
 		return
 	}
